@@ -316,7 +316,7 @@ pub async fn acc_cancel(seed: u64) {
 /// Directed scenario (C03/C11): a receive call is cancelled while the credit return it started is waiting for
 /// space in the dispatcher's event queue; afterwards other operations of the same endpoint (closing the
 /// receiver, sending on another direction) must still complete without that receiver being polled again.
-pub async fn ret_cancel(seed: u64) {
+pub async fn ret_cancel(seed: u64, die: bool) {
     use remoc::chmux::Received;
     let mut rng = Rng::new(seed ^ 0x4E7C);
     let mut cfg_a = EpCfg::small(&mut rng);
@@ -325,7 +325,7 @@ pub async fn ret_cancel(seed: u64) {
     cfg_b.tx_q = 1;
     cfg_b.rbuf = rng.range(4, 7) as u32; // threshold 1: every consumed frame returns credit
     cfg_a.rbuf = 16;
-    tr(json!({"ev": "reset", "seed": seed, "wl": "ret_cancel", "cfg": [cfg_a.json(), cfg_b.json()]}));
+    tr(json!({"ev": "reset", "seed": seed, "wl": "ret_cancel", "die": die, "cfg": [cfg_a.json(), cfg_b.json()]}));
     install_spawn_policy(seed, 1, 4);
     let mut conn = Conn::establish(&cfg_a, &cfg_b).await;
     let client = conn.client[0].clone().unwrap();
@@ -424,6 +424,84 @@ pub async fn ret_cancel(seed: u64) {
     match got {
         Some(Ok(Some(Received::Data(d)))) => tr(json!({"ev": "api_done", "op": id, "res": "data", "data": bytes_json(&Vec::<u8>::from(d))})),
         _ => tr(json!({"ev": "api_cancel", "op": id, "polls": 10})),
+    }
+    if die {
+        // B's dispatcher dies (its incoming stream fails) while the credit return is still parked; the second message is
+        // already buffered in B's port: the following receive calls must yield it and then fail - never panic
+        conn.ab.set(|st| st.fault_at = Some((st.emitted + 1, "stream_err")));
+        let id = next_op;
+        next_op += 1;
+        let data = vec![0x33u8; 1];
+        tr(json!({"ev": "api_start", "op": id, "ep": 1, "kind": "send", "port": p32(a_port), "data": bytes_json(&data)}));
+        let txc = a_tx.clone();
+        let mut op = Op::new(id, 1, async move {
+            let mut g = txc.lock_owned().await;
+            g.send(Bytes::from(data)).await
+        });
+        let mut res = None;
+        for _ in 0..30 {
+            if let Polled::Ready(r) = op.poll() {
+                res = Some(r.is_ok());
+                break;
+            }
+            conn.flush().await;
+        }
+        let polls = op.polls;
+        drop(op);
+        match res {
+            Some(true) => tr(json!({"ev": "api_done", "op": id, "res": "ok"})),
+            Some(false) => tr(json!({"ev": "api_done", "op": id, "res": "err", "err": "chmux"})),
+            None => tr(json!({"ev": "api_cancel", "op": id, "polls": polls})),
+        }
+        for _ in 0..20 {
+            conn.flush().await;
+        }
+        for _ in 0..3 {
+            let id = next_op;
+            next_op += 1;
+            tr(json!({"ev": "api_start", "op": id, "ep": 2, "kind": "recv_any", "port": p32(b_port)}));
+            let rxc = b_rx.clone();
+            let mut op = Op::new(id, 2, async move {
+                let mut g = rxc.lock_owned().await;
+                g.recv_any().await
+            });
+            let mut done = None;
+            for _ in 0..40 {
+                match op.poll() {
+                    Polled::Ready(r) => {
+                        done = Some(Some(r));
+                        break;
+                    }
+                    Polled::Panicked => {
+                        done = Some(None);
+                        break;
+                    }
+                    Polled::Pending => settle().await,
+                }
+            }
+            match done {
+                Some(Some(Ok(Some(Received::Data(d))))) => tr(json!({"ev": "api_done", "op": id, "res": "data", "data": bytes_json(&Vec::<u8>::from(d))})),
+                Some(Some(Ok(_))) => tr(json!({"ev": "api_done", "op": id, "res": "none"})),
+                Some(Some(Err(_))) => tr(json!({"ev": "api_done", "op": id, "res": "err", "err": "chmux"})),
+                Some(None) => tr(json!({"ev": "api_panic", "op": id})),
+                None => tr(json!({"ev": "api_cancel", "op": id, "polls": 40})),
+            }
+        }
+        conn.ba.set(|st| st.blocked = false);
+        tr(json!({"ev": "backpressure", "dir": 2, "on": false}));
+        for o in fillers {
+            tr(json!({"ev": "api_cancel", "op": o.id, "polls": o.polls}));
+        }
+        tr(json!({"ev": "quiescent", "pending": [], "settled": false}));
+        drop(a_tx);
+        drop(a_rx);
+        drop(b_tx);
+        drop(b_rx);
+        drop(client);
+        drop(listener);
+        tr(json!({"ev": "all_dropped"}));
+        conn.teardown().await;
+        return;
     }
     // the next receive call starts flushing the parked return and is cancelled after a few polls
     let id = next_op;
